@@ -1,10 +1,89 @@
 import Vegeta.Go.Proto
-/-! Driver operations of property C17 (ops are named `c17.<name>`). -/
-namespace Vegeta.Driver.C17
-open Vegeta.Go Vegeta.Go.Proto
+import Vegeta.Model.LTTB
+import Vegeta.Model.Plot
+/-! Driver operations of property C17 (ops are named `c17.<name>`).
 
-def handle (_op : String) (args : List String) : Option String :=
-  match _op with
+* `c17.downsample <count> <threshold> <n> x1 y1 … xn yn`  (floats as bit patterns)
+    → `ok <k> x1 y1 … xk yk` | `err` | `panic`
+* `c17.bucketsok <count> <threshold>` → `ok 0|1`
+* `c17.plot <threshold> <n> (<attackhex> <seq> <ts> <latency> <iserr>)×n`
+    → `ok <nlabels> <labelhex>… <nrows> <width> <bits>…` | `err add <i>` (the i-th Add failed) | `err data` | `panic …`
+  rows are printed in canonical order: sorted by X, ties ordered by the rows' bit patterns
+  (`sort.Sort` is not stable; the harness canonicalises the real rows the same way).
+* `c17.adds <n> (…)×n` → `ok` | `err add <i>` | `panic add <i>`   (only the Adds, no data)
+-/
+namespace Vegeta.Driver.C17
+open Vegeta.Go Vegeta.Go.Proto Vegeta.Model.LTTB Vegeta.Model.Plot
+
+def point : P Point := do
+  let x ← nat
+  let y ← nat
+  pure ⟨⟨x⟩, ⟨y⟩⟩
+
+def result : P Result := do
+  let a ← bytes
+  let s ← nat
+  let t ← int
+  let l ← int
+  let e ← bool
+  pure { attack := a, seq := s, ts := t, latency := l, label := if e then labelERROR else labelOK }
+
+def showPoints (ps : List Point) : String :=
+  toString ps.length ++ ps.foldl (fun s p => s ++ " " ++ toString p.x.bits ++ " " ++ toString p.y.bits) ""
+
+def bitsLt : List F64 → List F64 → Bool
+  | [], [] => false
+  | [], _ :: _ => true
+  | _ :: _, [] => false
+  | a :: as, b :: bs => if a.bits < b.bits then true else if b.bits < a.bits then false else bitsLt as bs
+
+/-- reorder each run of rows with equal X by bit pattern -/
+def canonTies : List (List F64) → List (List F64) → List (List F64)
+  | [], grp => sortBy bitsLt grp
+  | r :: rs, [] => canonTies rs [r]
+  | r :: rs, g :: grp =>
+    if F64.eq (rowX r) (rowX g) then canonTies rs (r :: g :: grp)
+    else sortBy bitsLt (g :: grp) ++ canonTies rs [r]
+
+def showRows (rows : List (List F64)) (width : Nat) : String :=
+  toString rows.length ++ " " ++ toString width ++
+    rows.foldl (fun s r => r.foldl (fun s f => s ++ " " ++ toString f.bits) s) ""
+
+/-- `Plot.addAll` that also reports the index of the failing `Add` -/
+def addAllIdx (p : Plot) : List Result → Nat → Sum Plot String
+  | [], _ => .inl p
+  | r :: rs, i =>
+    match Plot.add p r with
+    | .ok p' => addAllIdx p' rs (i+1)
+    | .error _ => .inr ("err add " ++ toString i)
+    | .panic => .inr ("panic add " ++ toString i)
+
+def handle (op : String) (args : List String) : Option String :=
+  match op with
+  | "c17.downsample" => do
+    let ((c, t, ps), _) ← (do let c ← int; let t ← int; let ps ← listOf point; pure (c, t, ps)).run args
+    match downsample c t ps with
+    | .ok out => pure ("ok " ++ showPoints out)
+    | .error _ => pure "err"
+    | .panic => pure "panic"
+  | "c17.bucketsok" => do
+    let ((c, t), _) ← (do let c ← int; let t ← int; pure (c, t)).run args
+    pure ("ok " ++ (if bucketsOK c t then "1" else "0"))
+  | "c17.plot" => do
+    let ((th, rs), _) ← (do let th ← int; let rs ← listOf result; pure (th, rs)).run args
+    match addAllIdx [] rs 0 with
+    | .inl p =>
+      match Plot.data id p th with
+      | .ok (rows, labels) =>
+        pure ("ok " ++ showBytesList labels ++ " " ++ showRows (canonTies rows []) labels.length)
+      | .error _ => pure "err data"
+      | .panic => pure "panic data"
+    | .inr msg => pure msg
+  | "c17.adds" => do
+    let (rs, _) ← (listOf result).run args
+    match addAllIdx [] rs 0 with
+    | .inl _ => pure "ok"
+    | .inr msg => pure msg
   | _ => none
 
 end Vegeta.Driver.C17
